@@ -116,6 +116,7 @@ def groups_of(c):
         g.append({"opt": "A", "regex": False, "specs": c["specs"]})
     if c["rspecs"]:
         g.append({"opt": "R", "regex": False, "specs": c["rspecs"]})
+    c["groups"] = g
     return g
 
 
@@ -1270,6 +1271,17 @@ def evaluate(ctx, batches, name="cases"):
         evals.append(("mismatch%d" % bi, "bad_indices (t_agrees syms%d) cases%d 0" % (bi, bi)))
         evals.append(("violations%d" % bi, "bad_indices t_ok cases%d 0" % bi))
         evals.append(("sviolations%d" % bi, "bad_indices t_ok_script cases%d 0" % bi))
+        # the spec list libmcount holds (SPECS) against the model of add_arg_spec applied to the options as given
+        tabs = []
+        for c in cases:
+            gs = groups_of(c)
+            opts = [g for g in gs if g["opt"] == "A"] + [g for g in gs if g["opt"] == "R"]
+            tabs.append("([%s], [%s])" % (
+                "; ".join("(%s, [%s])" % (coq.coq_bool(not g.get("regex")), "; ".join(coq_spec(x) for x in c["gparsed"][id(g)]))
+                          for g in opts),
+                "; ".join(coq_spec(m) for m in c["mspecs"])))
+        defs.append("Definition tabs%d : list (list (bool * list spec) * list spec) := [\n%s\n]." % (bi, ";\n".join(tabs)))
+        evals.append(("tmismatch%d" % bi, "bad_indices (fun p => specs_eqb (merge_opts (fst p)) (snd p)) tabs%d 0" % bi))
     res = coq.run_cases(ctx, name, PRE, "\n".join(defs), evals)
     if res is None:
         return None
@@ -1278,6 +1290,7 @@ def evaluate(ctx, batches, name="cases"):
         out["mismatch"] += [(bi, i) for i in coq.parse_nat_list(res["mismatch%d" % bi])]
         out["violations"] += [(bi, i) for i in coq.parse_nat_list(res["violations%d" % bi])]
         out["script"] |= set((bi, i) for i in coq.parse_nat_list(res["sviolations%d" % bi]))
+        out.setdefault("table", []).extend((bi, i) for i in coq.parse_nat_list(res["tmismatch%d" % bi]))
     return out
 
 
@@ -1960,6 +1973,12 @@ def prepare(impl, cases):
     for c in cases:
         if "slots" not in c:
             finish_slots(c)
+        c["gparsed"] = {}
+        for g in groups_of(c):
+            ps = impl.parse_specs(g["specs"])
+            if any(x is None for x in ps):
+                raise RuntimeError("generated spec rejected by parse_argspec: %r" % (g["specs"],))
+            c["gparsed"][id(g)] = ps
 
 
 def public(c):
@@ -2082,6 +2101,12 @@ def verdict(ctx, batches, res, what="generated"):
                 if seen <= 3:
                     ctx.violation("C09 violated (%s case): %s" % (what, bad),
                                   {"mode": "dump", "case": public(c), "observed": observed(c)}, True)
+    for bi, i in res.get("table", [])[:2]:
+        c = batches[bi][i]
+        ctx.violation("the spec list libmcount builds from the -A/-R options differs from the model of add_arg_spec / "
+                      "update_trigger (the readers rebuild their list with the same routines)",
+                      {"mode": "spec-table", "case": public(c), "libmcount_list": c["mspecs"],
+                       "options": [[g["opt"], bool(g.get("regex")), g["specs"]] for g in groups_of(c)]}, False)
     mism = [(bi, i) for bi, i in res["mismatch"] if batches[bi][i]["obs"]["args_text"] is not None]
     if mism and not seen:
         bi, i = mism[0]
